@@ -57,7 +57,7 @@ add('C18', 'exploration',
     'Differential Python <-> rbql-js on identical cases: exhaustive lines (splitting, both preserve modes), exhaustive short strings (quoting), exhaustive short files x policies x comment prefix x header x encodings (readers, stream and bulk), random tables written by both writers (bytes compared, cross read) and language-neutral select lists incl. hostile column names (headers, parsing-error class).',
     TRUST + ' node v20 on PATH; js/driver.js requires <repo>/rbql-js by absolute path.', 'exhaustive enumeration + property-based testing, differential between the two implementations', 'DESIGN.md §2 C18')
 add('C20', 'exploration',
-    'Every input of <= 5 (quick) / <= 6 (thorough) bytes over {a, ", comma, LF, CR, #} in every byte partition (separate Buffers from a Readable) x 3 policies x comment prefix x 2 encodings, all partitions of multi-byte UTF-8 samples incl. BOM / invalid / truncated sequences, and 64 KiB-straddling real files through fs.createReadStream and bulk mode: every delivery == single-chunk delivery == reference reader; invalid UTF-8 rejected in every partition.',
+    'Every input of <= 6 bytes (thorough: also 7 for three configurations) over {a, ", comma, LF, CR, #} in every byte partition (separate Buffers from a Readable) x 3 policies x comment prefix x 2 encodings, all partitions of multi-byte UTF-8 samples incl. BOM / invalid / truncated sequences, and 64 KiB-straddling real files through fs.createReadStream and bulk mode: every delivery == single-chunk delivery == reference reader; invalid UTF-8 rejected in every partition.',
     TRUST + ' node v20 on PATH.', 'exhaustive schedule enumeration (all byte partitions) through a node driver, schedule-invariance + reference reader', 'DESIGN.md §2 C20')
 
 add('C19', 'exploration',
